@@ -110,52 +110,6 @@ AllVerLabels == {e.c : e \in RangeOf(VerPool)}
 AllBaseLabels == {e.c : e \in RangeOf(BasePool)}
 DeepTypes == {"Patient", "MedicinalProductUndesirableEffect", "List", "Parameters", "Bundle", "CoverageEligibilityResponse"}
 
-(* quick: per type a covering selection (every id class; every base; every  *)
-(* version class), the full product for Patient only                        *)
-QuickRest ==
-  RestCases(R4Types, IdsOf(AllIdLabels), VersOf({"none"}), BasesOf({"none"}))
-  \cup RestCases(R4Types, IdsOf({"len1", "len64", "mixed"}), VersOf(AllVerLabels \ {"none"}), BasesOf({"none"}))
-  \cup RestCases(R4Types, IdsOf({"mixed"}), VersOf({"none", "v1"}), BasesOf(AllBaseLabels \ {"none"}))
-  \cup RestCases(R4Types, IdsOf({"len64", "len65", "onlydot"}), VersOf({"vmixed"}), BasesOf({"nested", "trailing"}))
-  \cup RestCases({"Patient"}, IdsOf(AllIdLabels), VersOf(AllVerLabels), BasesOf(AllBaseLabels))
-ThoroughRest ==
-  RestCases(R4Types, IdsOf(AllIdLabels), VersOf({"none", "v1", "vlen64"}), BasesOf({"none", "https", "nested", "trailing"}))
-  \cup RestCases(R4Types, IdsOf({"len1", "len64", "mixed", "onlydot"}), VersOf(AllVerLabels), BasesOf(AllBaseLabels))
-  \cup RestCases(DeepTypes, IdsOf(AllIdLabels), VersOf(AllVerLabels), BasesOf(AllBaseLabels))
-
-FragCases(types, ids) == {Case("frag", t, i.s, "", "", i.c, "", "", "") : t \in types, i \in ids}
-                         \cup {Case("frag", t, "", "", "", "bare", "", "", "") : t \in types}
-UrnCases(types) == {Case("urn", t, u.s, "", "", u.c, "", "", "") : t \in types, u \in RangeOf(UrnPool)}
-CanonCases(urls, vers, frags) == {Case("canon", "", f.s, v.s, u.s, f.c, v.c, u.c, "") : u \in urls, v \in vers, f \in frags}
-(* canonical URLs that embed each resource type *)
-TypeCanonCases(types) ==
-  {Case("canon", t, f.s, v.s, "http://example.org/fhir/" \o t \o "/c1", f.c, v.c, "typed", "")
-     : t \in types, v \in {e \in RangeOf(CanonVerPool) : e.c \in {"none", "semver"}}, f \in {e \in RangeOf(CanonFragPool) : e.c \in {"none", "mixed"}}}
-(* not well-formed canonicals: rejected with an error, or accepted consistently *)
-BadCanonCases ==
-  {Case("canon", "", f.s, v.s, u.s, f.c, v.c, u.c, "") :
-     u \in {[c |-> "emptyurl", s |-> ""]} \cup {e \in RangeOf(CanonUrlPool) : e.c = "plain"},
-     v \in {[c |-> "none", s |-> ""], [c |-> "semver", s |-> "1.0.0"], [c |-> "vspace", s |-> "1.0 beta"], [c |-> "vplus", s |-> "1.0.0+b7"]},
-     f \in {[c |-> "none", s |-> ""], [c |-> "mixed", s |-> "A1-b.2"], [c |-> "len65", s |-> Id60 \o "x.8Zq"], [c |-> "badspace", s |-> "a b"]}}
-EmptyCase == Case("empty", "Patient", "", "", "", "", "", "", "")
-PoolCases(types) == {Case("pool", t, "A1-b.2", "1", "http://example.org/fhir", "mixed", "v1", "https", NextType(t)) : t \in types}
-
-QuickCases ==
-  QuickRest
-  \cup FragCases(R4Types, IdsOf({"len1", "len64", "mixed", "len65", "badunderscore"}))
-  \cup FragCases({"Patient"}, IdsOf(AllIdLabels))
-  \cup UrnCases({"Patient", "Parameters"}) \cup UrnCases(R4Types)
-  \cup CanonCases(RangeOf(CanonUrlPool), RangeOf(CanonVerPool), RangeOf(CanonFragPool))
-  \cup TypeCanonCases(R4Types) \cup BadCanonCases
-  \cup {EmptyCase} \cup PoolCases(R4Types)
-ThoroughCases ==
-  ThoroughRest
-  \cup FragCases(R4Types, IdsOf(AllIdLabels))
-  \cup UrnCases(R4Types)
-  \cup CanonCases(RangeOf(CanonUrlPool), RangeOf(CanonVerPool), RangeOf(CanonFragPool))
-  \cup TypeCanonCases(R4Types) \cup BadCanonCases
-  \cup {EmptyCase} \cup PoolCases(R4Types)
-
 (* ------------------------------------------------------- case denotation *)
 CompsOf(cs) ==
   CASE cs.kind = "rest"  -> Rest(cs.type, cs.base, cs.rid, cs.ver)
@@ -198,17 +152,47 @@ PoolRefs(cs) ==
 (* the same resource with the same information; "F" they name different     *)
 (* REST identities; "-" not fixed by the property (base URL ignored or not, *)
 (* fragment vs REST, versioned vs unversioned).                             *)
-RequiredSame(a, b) ==
-  LET ia == IdentityOfRef(a)
-      ib == IdentityOfRef(b)
-      bothPlainRest == a.shape \in {"strong", "weak", "weaknt"} /\ b.shape \in {"strong", "weak", "weaknt"} /\ ia.has /\ ib.has
-      baseOf(r) == IF r.shape = "strong" THEN "" ELSE Parse(r.text).c.base
-  IN IF a = b THEN "T"
-     ELSE IF ~bothPlainRest THEN "-"
-     ELSE IF ia.type # ib.type \/ ia.rid # ib.rid THEN "F"
-     ELSE IF ia.ver # "" /\ ib.ver # "" /\ ia.ver # ib.ver THEN "F"
-     ELSE IF ia.ver = ib.ver /\ baseOf(a) = baseOf(b) THEN "T"
+RequiredSameI(x, y) ==
+  LET plain(r) == r.shape \in {"strong", "weak", "weaknt"}
+  IN IF x.ref = y.ref THEN "T"
+     ELSE IF ~(plain(x.ref) /\ plain(y.ref) /\ x.id.has /\ y.id.has) THEN "-"
+     ELSE IF x.id.type # y.id.type \/ x.id.rid # y.id.rid THEN "F"
+     ELSE IF x.id.ver # "" /\ y.id.ver # "" /\ x.id.ver # y.id.ver THEN "F"
+     ELSE IF x.id.ver = y.id.ver /\ x.base = y.base THEN "T"
      ELSE "-"
+RequiredMatrix(refs) ==
+  LET D == 1..Len(refs)
+      info == [i \in D |-> RefInfo(refs[i])]
+  IN [i \in D |-> [j \in D |-> RequiredSameI(info[i], info[j])]]
+
+(* The DENOTATION of a case: everything the oracle derives from the case by  *)
+(* character-level work, computed once (by C19_MC when the case is           *)
+(* generated; by the judge itself for the harness-made "raw" cases).         *)
+(*   text, rel     the reference string and its relative part                *)
+(*   want, relwant Parse(text), Parse(rel)                                   *)
+(*   red           text has redundant slashes                                *)
+(*   valid         components inside the property's domain of valid values   *)
+(*   idvalid       type, id, version valid (base aside)                      *)
+(*   baseStrict    base is "" or a strict base URL; baseSlashed: strict      *)
+(*                 after trimming trailing slashes                           *)
+(*   cwant         CanonParse(text)                                          *)
+(*   refs, req     the references of a pool case and RequiredMatrix          *)
+Denote(cs) ==
+  LET text == TextOf(cs)
+      rel  == RelOf(cs)
+      want == Parse(text)
+      canonKinds == {"canon", "empty", "raw", "str"}
+  IN [text |-> text, rel |-> rel,
+      want |-> want,
+      relwant |-> IF rel = text THEN want ELSE Parse(rel),
+      red |-> HasRedundantSlash(text),
+      valid |-> ValidCase(cs),
+      idvalid |-> IF cs.kind = "rest" THEN ValidIdentity(cs) ELSE FALSE,
+      baseStrict |-> cs.kind = "rest" /\ (cs.base = "" \/ IsStrictBase(cs.base)),
+      baseSlashed |-> cs.kind = "rest" /\ cs.base # "" /\ ~IsStrictBase(cs.base) /\ IsStrictBase(CanonBase(cs.base)),
+      cwant |-> IF cs.kind \in canonKinds THEN CanonParse(text) ELSE CanonErr,
+      refs |-> IF cs.kind = "pool" THEN PoolRefs(cs) ELSE <<>>,
+      req  |-> IF cs.kind = "pool" THEN RequiredMatrix(PoolRefs(cs)) ELSE <<>>]
 
 (* ------------------------------------------------------------- judgement *)
 (* Observed probes (all fields always present):                            *)
@@ -216,8 +200,9 @@ RequiredSame(a, b) ==
 (*  PId  [k, type, rid, ver, str]     PStr [k, s]     PBool [k, b]          *)
 (*  PCan [k, url, ver, frag, str]                                          *)
 (*  k: "ok" | "err" | "panic" | "timeout" | "skip" (prerequisite missing)   *)
+(* Every Checks* operator takes the observation o, the case cs and its      *)
+(* denotation d, and returns a sequence of [name, problem] ("" = passed).   *)
 Crashed(p) == p.k \in {"panic", "timeout"}
-NoCrash(p) == ~Crashed(p)
 LitComps(p) ==
   CASE p.form = "rest" -> Rest(p.type, p.base, p.rid, p.ver)
     [] p.form = "frag" -> Frag(p.frag)
@@ -234,20 +219,19 @@ SameId(p, q) == p.k = "ok" /\ q.k = "ok" /\ p.type = q.type /\ p.rid = q.rid /\ 
 
 (* an accepted string whose returned information re-formats to the input    *)
 (* (canonical form) and re-parses to the same information                   *)
-TextAgrees(str, text) == str = text \/ (HasRedundantSlash(text) /\ Squeeze(str) = Squeeze(text))
-LitConsistent(text, p1, p2) ==
+TextAgrees(str, text, red) == str = text \/ (red /\ Squeeze(str) = Squeeze(text))
+LitConsistent(text, red, p1, p2) ==
   /\ p1.k = "ok" /\ p1.nforms = 1
   /\ p1.str = Format(LitComps(p1))
-  /\ TextAgrees(p1.str, text)
+  /\ TextAgrees(p1.str, text, red)
   /\ SameLit(p2, p1)
 
-(* Judgement of parse(text) -> p1, parse(format(p1)) -> p2.  Returns "" when *)
-(* permitted, otherwise what is wrong.                                      *)
-LitParseVerdict(text, p1, p2) ==
-  LET sp == Parse(text) IN
+(* Judgement of parse(text) -> p1, parse(format(p1)) -> p2, where sp is the  *)
+(* specification's Parse(text).  "" when permitted, else what is wrong.      *)
+LitParseVerdict(text, sp, red, p1, p2) ==
   IF Crashed(p1) THEN p1.k
   ELSE IF Crashed(p2) THEN "reparse-" \o p2.k
-  ELSE IF sp.k = "ok" /\ ~HasRedundantSlash(text) THEN
+  ELSE IF sp.k = "ok" /\ ~red THEN
      (IF p1.k # "ok" THEN "rejected-valid"
       ELSE IF ~LitEq(p1, sp.c) THEN "wrong-components"
       ELSE IF p1.str # text THEN "format-differs"
@@ -256,13 +240,13 @@ LitParseVerdict(text, p1, p2) ==
   ELSE IF sp.k = "ok" THEN      \* valid, with redundant slashes: canonical form
      (IF p1.k # "ok" THEN "rejected-valid"
       ELSE IF ~(p1.form = "rest" /\ p1.type = sp.c.type /\ p1.rid = sp.c.rid /\ p1.ver = sp.c.ver) THEN "wrong-components"
-      ELSE IF ~LitConsistent(text, p1, p2) THEN "not-canonical"
+      ELSE IF ~LitConsistent(text, red, p1, p2) THEN "not-canonical"
       ELSE "")
-  ELSE IF p1.k = "ok" THEN (IF LitConsistent(text, p1, p2) THEN "" ELSE "accepted-inconsistent")
+  ELSE IF p1.k = "ok" THEN (IF LitConsistent(text, red, p1, p2) THEN "" ELSE "accepted-inconsistent")
   ELSE ""
 
 (* an identity parser: parse(text) -> p, parse(format(p)) -> p2 *)
-IdParseVerdict(text, p, p2, mustAccept, want) ==
+IdParseVerdict(p, p2, mustAccept, want) ==
   IF Crashed(p) THEN p.k
   ELSE IF Crashed(p2) THEN "reparse-" \o p2.k
   ELSE IF mustAccept THEN
@@ -275,8 +259,7 @@ IdParseVerdict(text, p, p2, mustAccept, want) ==
 
 CanEq(p, u, v, f) == p.k = "ok" /\ p.url = u /\ p.ver = v /\ p.frag = f
 SameCan(p, q) == p.k = "ok" /\ q.k = "ok" /\ p.url = q.url /\ p.ver = q.ver /\ p.frag = q.frag /\ p.str = q.str
-CanonParseVerdict(text, p, p2) ==
-  LET sp == CanonParse(text) IN
+CanonParseVerdict(text, sp, p, p2) ==
   IF Crashed(p) THEN p.k
   ELSE IF Crashed(p2) THEN "reparse-" \o p2.k
   ELSE IF sp.k = "ok" THEN
@@ -311,15 +294,14 @@ CaseClass(cs) ==
 
 Chk(name, problem) == [name |-> name, problem |-> problem]
 
-(* ---- aspect "litparse": LiteralInfoFromURI(text), URIString, re-parse ---- *)
-ChecksLitParse(o, cs) == << Chk("p1", LitParseVerdict(TextOf(cs), o.p1, o.p2)) >>
+(* ---- "litparse": LiteralInfoFromURI(text), URIString, re-parse ----------- *)
+ChecksLitParse(o, cs, d) == << Chk("p1", LitParseVerdict(d.text, d.want, d.red, o.p1, o.p2)) >>
 
-(* ---- aspect "identity": resource.NewIdentity and the Identity formatters, *)
-(*      resource.NewIdentityFromURL / NewIdentityFromHistoryURL of the text  *)
-ChecksIdentity(o, cs) ==
-  LET c == CompsOf(cs)
-      valid == ValidIdentity(cs)
-      rel == RelText(c)
+(* ---- "identity": resource.NewIdentity and the Identity formatters,         *)
+(*      resource.NewIdentityFromURL / NewIdentityFromHistoryURL of the text   *)
+ChecksIdentity(o, cs, d) ==
+  LET valid == d.idvalid
+      rel == d.rel
       unv == cs.type \o "/" \o cs.rid
       n == o.new
       fmtOk == /\ n.str = rel /\ n.relstr = unv /\ n.prefer = rel
@@ -327,8 +309,7 @@ ChecksIdentity(o, cs) ==
                /\ n.veridok = (cs.ver # "")
                /\ n.unvers = unv /\ n.withver = unv \o "/_history/9"
                /\ n.equalSelf /\ ~n.equalOther
-      text == TextOf(cs)
-      absValid == valid /\ (cs.base = "" \/ IsStrictBase(CanonBase(cs.base)))
+      absValid == d.valid
   IN << Chk("new", IF Crashed(n) THEN n.k
                    ELSE IF valid /\ n.k # "ok" THEN "rejected-valid"
                    ELSE IF n.k = "ok" /\ ~IdEq(n, cs.type, cs.rid, cs.ver) THEN "wrong-components"
@@ -347,18 +328,16 @@ ChecksIdentity(o, cs) ==
             ELSE IF p.k = "ok" /\ ~IdEq(p, cs.type, cs.rid, cs.ver) THEN "wrong-components"
             ELSE "") >>
 
-(* ---- aspect "litfmt": typed reference -> LiteralInfoOf ->                 *)
-(*      WithServiceBaseURL(base) -> URIString                                *)
-ChecksLitFmt(o, cs) ==
+(* ---- "litfmt": typed reference -> LiteralInfoOf ->                         *)
+(*      WithServiceBaseURL(base) -> URIString                                 *)
+ChecksLitFmt(o, cs, d) ==
   LET c == CompsOf(cs)
-      valid == ValidIdentity(cs)
+      valid == d.idvalid
       c0 == Rest(cs.type, "", cs.rid, cs.ver)
-      rel == RelText(c)
+      rel == d.rel
       s == o.sref
       l == o.lit
       w == o.withBase
-      baseStrict == cs.base = "" \/ IsStrictBase(cs.base)
-      baseSlashed == cs.base # "" /\ ~IsStrictBase(cs.base) /\ IsStrictBase(CanonBase(cs.base))
   IN << Chk("strong", IF Crashed(s) THEN s.k
                       ELSE IF valid /\ s.k # "ok" THEN "rejected-valid"
                       ELSE IF s.k = "ok" /\ ~(s.type = cs.type /\ s.rid = cs.rid /\ s.hist = cs.ver) THEN "wrong-components"
@@ -368,97 +347,92 @@ ChecksLitFmt(o, cs) ==
                    ELSE IF l.k = "ok" /\ ~(LitEq(l, c0) /\ l.str = rel) THEN "wrong-components"
                    ELSE ""),
         Chk("withBase", IF Crashed(w) THEN w.k
-                   ELSE IF valid /\ l.k = "ok" /\ baseStrict /\ w.k # "ok" THEN "rejected-valid"
-                   ELSE IF w.k = "ok" /\ baseStrict /\ ~(LitEq(w, c) /\ w.str = Format(c)) THEN "wrong-components"
-                   ELSE IF w.k = "ok" /\ baseSlashed
+                   ELSE IF valid /\ l.k = "ok" /\ d.baseStrict /\ w.k # "ok" THEN "rejected-valid"
+                   ELSE IF w.k = "ok" /\ d.baseStrict /\ ~(LitEq(w, c) /\ w.str = d.text) THEN "wrong-components"
+                   ELSE IF w.k = "ok" /\ d.baseSlashed
                            /\ ~(/\ w.form = "rest" /\ w.type = cs.type /\ w.rid = cs.rid /\ w.ver = cs.ver
                                 /\ w.base \in {cs.base, CanonBase(cs.base)}
                                 /\ w.str = w.base \o "/" \o rel) THEN "wrong-components"
                    ELSE "") >>
 
-(* ---- aspect "identurl": reference.IdentityFromURL / FromAbsoluteURL /     *)
-(*      FromRelativeURI                                                      *)
-ChecksIdentURL(o, cs) ==
-  LET text == TextOf(cs)
-      sp == Parse(text)
+(* ---- "identurl": reference.IdentityFromURL / FromAbsoluteURL /             *)
+(*      FromRelativeURI                                                       *)
+ChecksIdentURL(o, cs, d) ==
+  LET sp == d.want
       isRest == sp.k = "ok" /\ sp.c.form = "rest"
-      want == IF isRest THEN sp.c ELSE Rest("", "", "", "")
-      rtext == RelOf(cs)
-      rp == Parse(rtext)
+      rp == d.relwant
       relRest == rp.k = "ok" /\ rp.c.form = "rest" /\ rp.c.base = ""
-  IN << Chk("url", IdParseVerdict(text, o.url, o.url2, isRest, want)),
-        Chk("abs", IdParseVerdict(text, o.abs, o.abs2, isRest /\ want.base # "", want)),
-        Chk("rel", IdParseVerdict(rtext, o.rel, o.rel2, relRest, IF relRest THEN rp.c ELSE want)) >>
+  IN << Chk("url", IdParseVerdict(o.url, o.url2, isRest, sp.c)),
+        Chk("abs", IdParseVerdict(o.abs, o.abs2, isRest /\ sp.c.base # "", sp.c)),
+        Chk("rel", IdParseVerdict(o.rel, o.rel2, relRest, rp.c)) >>
 
-(* ---- aspect "strongweak": Typed / TypedFromIdentity vs Weak               *)
-ChecksStrongWeak(o, cs) ==
-  LET valid == ValidIdentity(cs)
+(* ---- "strongweak": Typed / TypedFromIdentity vs Weak ---------------------- *)
+ChecksStrongWeak(o, cs, d) ==
+  LET valid == d.idvalid
       c0 == Rest(cs.type, "", cs.rid, cs.ver)
-      rel == RelText(c0)
-      weakValid == Parse(rel).k = "ok"        \* the list of types is the R4 list
+      rel == d.rel
+      weakValid == d.relwant.k = "ok"
       ks == {o.slit.k, o.wlit.k, o.nlit.k, o.sid.k, o.wid.k, o.isSW.k, o.isWS.k, o.isSS.k, o.isWW.k, o.isSN.k, o.isNS.k}
       crashed == ks \cap {"panic", "timeout"}
+      built == o.slit.k # "skip"       \* a typed reference exists (litfmt judges whether it must)
   IN << Chk("crash", IF crashed = {} THEN "" ELSE CHOOSE k \in crashed : TRUE),
-        Chk("strong-info", IF valid /\ o.slit.k # "skip" /\ ~(LitEq(o.slit, c0) /\ o.slit.str = rel) THEN (IF o.slit.k # "ok" THEN "rejected-valid" ELSE "wrong-components") ELSE ""),
+        Chk("strong-info", IF valid /\ built /\ ~(LitEq(o.slit, c0) /\ o.slit.str = rel)
+                           THEN (IF o.slit.k # "ok" THEN "rejected-valid" ELSE "wrong-components") ELSE ""),
         Chk("weak-info", IF valid /\ weakValid /\ ~(LitEq(o.wlit, c0) /\ o.wlit.str = rel /\ LitEq(o.nlit, c0) /\ o.nlit.str = rel)
                          THEN (IF o.wlit.k # "ok" \/ o.nlit.k # "ok" THEN "rejected-valid" ELSE "wrong-components") ELSE ""),
         Chk("equal-info", IF valid /\ o.slit.k = "ok" /\ o.wlit.k = "ok" /\ ~SameLit(o.slit, o.wlit) THEN "strong-weak-differ" ELSE ""),
-        Chk("identity", IF valid /\ o.slit.k # "skip" /\ ~(IdEq(o.sid, cs.type, cs.rid, cs.ver) /\ IdEq(o.wid, cs.type, cs.rid, cs.ver))
+        Chk("identity", IF valid /\ built /\ weakValid /\ ~(IdEq(o.sid, cs.type, cs.rid, cs.ver) /\ IdEq(o.wid, cs.type, cs.rid, cs.ver))
                         THEN (IF o.sid.k # "ok" \/ o.wid.k # "ok" THEN "rejected-valid" ELSE "wrong-components") ELSE ""),
-        Chk("is", IF valid /\ o.slit.k # "skip" /\ ~(o.isSW.b /\ o.isWS.b /\ o.isSN.b /\ o.isNS.b) THEN "not-same" ELSE ""),
+        Chk("is", IF valid /\ built /\ weakValid /\ ~(o.isSW.b /\ o.isWS.b /\ o.isSN.b /\ o.isNS.b) THEN "not-same" ELSE ""),
         Chk("is-reflexive", IF (o.isSS.k = "ok" /\ ~o.isSS.b) \/ (o.isWW.k = "ok" /\ ~o.isWW.b) THEN "not-reflexive" ELSE ""),
         Chk("is-symmetric", IF o.isSW.k = "ok" /\ o.isWS.k = "ok" /\ o.isSW.b # o.isWS.b THEN "not-symmetric" ELSE "") >>
 
-(* ---- aspect "readback": FHIRPath `reference` of the typed reference, of   *)
-(*      the URI reference and of the JSON-parsed reference                   *)
-ChecksReadBack(o, cs) ==
-  LET text == TextOf(cs)
-      rel == RelOf(cs)
-      valid == ValidCase(cs)
-  IN << Chk("strong", ReadBackVerdict(o.fs, rel)),        \* "skip" when no typed reference could be built (judged by litfmt)
-        Chk("weak", ReadBackVerdict(o.fw, text)),
-        Chk("weak-rel", ReadBackVerdict(o.fr, rel)),
-        Chk("json", ReadBackVerdict(o.fj, text)),
-        Chk("json-present", IF valid /\ o.fj.k = "skip" /\ text # "" THEN "json-not-parsed" ELSE "") >>
+(* ---- "readback": FHIRPath `reference` of the typed reference, of the URI   *)
+(*      reference and of the JSON-parsed reference                            *)
+ChecksReadBack(o, cs, d) ==
+  << Chk("strong", ReadBackVerdict(o.fs, d.rel)),       \* "skip" when no typed reference could be built (judged by litfmt)
+     Chk("weak", ReadBackVerdict(o.fw, d.text)),
+     Chk("weak-rel", ReadBackVerdict(o.fr, d.rel)),
+     Chk("json", ReadBackVerdict(o.fj, d.text)),
+     Chk("json-present", IF d.valid /\ o.fj.k = "skip" /\ d.text # "" THEN "json-not-parsed" ELSE "") >>
 
-(* ---- aspect "fragref": Reference.fragment vs Reference.uri "#id"          *)
-ChecksFragRef(o, cs) ==
-  LET valid == cs.rid = "" \/ IsId(cs.rid)
+(* ---- "fragref": Reference.fragment vs Reference.uri "#id" ---------------- *)
+ChecksFragRef(o, cs, d) ==
+  LET valid == d.valid
       c == Frag(cs.rid)
-      text == "#" \o cs.rid
+      text == d.text
       typed(p) == LitEq(p, c) /\ p.hasType /\ p.type = cs.type /\ p.str = text
       untyped(p) == LitEq(p, c) /\ ~p.hasType /\ p.str = text
       crashed == {o.flit.k, o.ulit.k, o.nlit.k} \cap {"panic", "timeout"}
+      one(p, good) == IF valid /\ ~good THEN (IF p.k # "ok" THEN "rejected-valid" ELSE "wrong-components")
+                      ELSE IF ~valid /\ p.k = "ok" /\ ~good THEN "accepted-inconsistent" ELSE ""
   IN << Chk("crash", IF crashed = {} THEN "" ELSE CHOOSE k \in crashed : TRUE),
-        Chk("fragment", IF valid /\ ~typed(o.flit) THEN (IF o.flit.k # "ok" THEN "rejected-valid" ELSE "wrong-components")
-                        ELSE IF ~valid /\ o.flit.k = "ok" /\ ~typed(o.flit) THEN "accepted-inconsistent" ELSE ""),
-        Chk("uri", IF valid /\ ~typed(o.ulit) THEN (IF o.ulit.k # "ok" THEN "rejected-valid" ELSE "wrong-components")
-                   ELSE IF ~valid /\ o.ulit.k = "ok" /\ ~typed(o.ulit) THEN "accepted-inconsistent" ELSE ""),
-        Chk("uri-notype", IF valid /\ ~untyped(o.nlit) THEN (IF o.nlit.k # "ok" THEN "rejected-valid" ELSE "wrong-components")
-                   ELSE IF ~valid /\ o.nlit.k = "ok" /\ ~untyped(o.nlit) THEN "accepted-inconsistent" ELSE ""),
+        Chk("fragment", one(o.flit, typed(o.flit))),
+        Chk("uri", one(o.ulit, typed(o.ulit))),
+        Chk("uri-notype", one(o.nlit, untyped(o.nlit))),
         Chk("equal-info", IF o.flit.k = "ok" /\ o.ulit.k = "ok" /\ ~SameLit(o.flit, o.ulit) THEN "fragment-uri-differ" ELSE ""),
-        Chk("is-reflexive", IF (o.isFF.k = "ok" /\ ~o.isFF.b) \/ (o.isUU.k = "ok" /\ ~o.isUU.b) \/ Crashed(o.isFF) \/ Crashed(o.isUU) THEN "not-reflexive" ELSE ""),
+        Chk("is-reflexive", IF Crashed(o.isFF) \/ Crashed(o.isUU) \/ ~o.isFF.b \/ ~o.isUU.b THEN "not-reflexive" ELSE ""),
         Chk("is-symmetric", IF Crashed(o.isFU) \/ Crashed(o.isUF) \/ o.isFU.b # o.isUF.b THEN "not-symmetric" ELSE "") >>
 
-(* ---- aspect "weakref": a URN in a URI reference                          *)
-ChecksWeakRef(o, cs) ==
-  LET text == TextOf(cs)
-      sp == Parse(text)
+(* ---- "weakref": a URN (or any text) in a URI reference -------------------- *)
+ChecksWeakRef(o, cs, d) ==
+  LET text == d.text
+      sp == d.want
       w == o.wlit
   IN << Chk("weak-info", IF Crashed(w) THEN w.k
-                         ELSE IF sp.k = "ok" /\ w.k # "ok" THEN "rejected-valid"
-                         ELSE IF sp.k = "ok" /\ ~(LitEq(w, sp.c) /\ w.hasType /\ w.type = cs.type /\ w.str = text) THEN "wrong-components"
-                         ELSE IF sp.k # "ok" /\ w.k = "ok" /\ ~(w.str = Format(LitComps(w)) /\ TextAgrees(w.str, text)) THEN "accepted-inconsistent"
+                         ELSE IF sp.k = "ok" /\ ~d.red /\ w.k # "ok" THEN "rejected-valid"
+                         ELSE IF sp.k = "ok" /\ ~d.red /\ ~(LitEq(w, sp.c) /\ w.str = text) THEN "wrong-components"
+                         ELSE IF w.k = "ok" /\ ~(w.str = Format(LitComps(w)) /\ TextAgrees(w.str, text, d.red)) THEN "accepted-inconsistent"
                          ELSE ""),
         Chk("identity", IF Crashed(o.wid) THEN o.wid.k ELSE ""),
         Chk("is-reflexive", IF Crashed(o.isWW) THEN o.isWW.k ELSE IF ~o.isWW.b THEN "not-reflexive" ELSE "") >>
 
-(* ---- aspect "canon": canonical.New, IdentityFromReference,                *)
-(*      CanonicalIdentity.String, resource.NewCanonicalIdentity              *)
-ChecksCanon(o, cs) ==
-  LET text == TextOf(cs)
+(* ---- "canon": canonical.New, IdentityFromReference,                        *)
+(*      CanonicalIdentity.String, resource.NewCanonicalIdentity               *)
+ChecksCanon(o, cs, d) ==
+  LET text == d.text
       built == cs.kind = "canon"
-  IN << Chk("parse", CanonParseVerdict(text, o.parsed, o.reparsed)),
+  IN << Chk("parse", CanonParseVerdict(text, d.cwant, o.parsed, o.reparsed)),
         Chk("new", IF ~built THEN "" ELSE IF Crashed(o.made) THEN o.made.k
                    ELSE IF o.made.k # "ok" THEN "no-string" ELSE IF o.made.s # text THEN "format-differs" ELSE ""),
         Chk("ctor", IF ~built THEN "" ELSE IF Crashed(o.ctor) THEN o.ctor.k
@@ -466,16 +440,15 @@ ChecksCanon(o, cs) ==
                     ELSE IF o.ctor.k = "ok" /\ ~(CanEq(o.ctor, cs.base, cs.ver, cs.rid) /\ o.ctor.str = text) THEN "wrong-components"
                     ELSE "") >>
 
-(* ---- aspect "isrel": reference.Is on all pairs of the twelve references   *)
-(* m[i][j] is "T", "F" or "P" (panic / timeout)                              *)
-ChecksIsRel(o, cs) ==
-  LET refs == PoolRefs(cs)
-      n == Len(refs)
+(* ---- "isrel": reference.Is on all pairs of the twelve references ---------- *)
+(* m[i][j] is "T", "F" or "P" (panic / timeout)                               *)
+ChecksIsRel(o, cs, d) ==
+  LET n == Len(d.refs)
       m == o.m
       D == 1..n
       wellFormed == Len(m) = n /\ \A i \in D : Len(m[i]) = n
       T(i, j) == m[i][j] = "T"
-      req == [i \in D |-> [j \in D |-> RequiredSame(refs[i], refs[j])]]
+      req == d.req
   IN IF ~wellFormed THEN << Chk("matrix", "malformed") >>
      ELSE
      << Chk("crash", IF \E i, j \in D : m[i][j] \notin {"T", "F"} THEN "panic" ELSE ""),
@@ -485,36 +458,44 @@ ChecksIsRel(o, cs) ==
         Chk("same", IF \E i, j \in D : req[i][j] = "T" /\ ~T(i, j) THEN "same-resource-not-same" ELSE ""),
         Chk("different", IF \E i, j \in D : req[i][j] = "F" /\ T(i, j) THEN "different-resources-same" ELSE "") >>
 
+(* ---- "raw": every parser on one byte-mutated neighbour (one record, one    *)
+(*      Parse); the canonical check comes last                                *)
+ChecksRaw(o, cs, d) ==
+  ChecksLitParse(o, cs, d) \o ChecksIdentURL(o, cs, d) \o ChecksWeakRef(o, cs, d)
+  \o << Chk("weak", ReadBackVerdict(o.fw, d.text)), Chk("json", ReadBackVerdict(o.fj, d.text)) >>
+  \o ChecksCanon(o, cs, d)
+
 AspectsOf(kind) ==
   CASE kind = "rest"  -> {"identity", "litfmt", "litparse", "identurl", "strongweak", "readback"}
     [] kind = "frag"  -> {"litparse", "identurl", "fragref", "readback"}
     [] kind = "urn"   -> {"litparse", "identurl", "weakref", "readback"}
     [] kind = "canon" -> {"canon", "litparse"}
     [] kind = "empty" -> {"litparse", "identurl", "canon", "weakref", "readback"}
-    [] kind = "raw"   -> {"litparse", "identurl", "canon", "weakref", "readback"}
+    [] kind = "raw"   -> {"raw"}
     [] kind = "pool"  -> {"isrel"}
     [] OTHER -> {}
 
-ChecksOf(o, cs) ==
-  CASE o.aspect = "litparse"   -> ChecksLitParse(o, cs)
-    [] o.aspect = "identity"   -> ChecksIdentity(o, cs)
-    [] o.aspect = "litfmt"     -> ChecksLitFmt(o, cs)
-    [] o.aspect = "identurl"   -> ChecksIdentURL(o, cs)
-    [] o.aspect = "strongweak" -> ChecksStrongWeak(o, cs)
-    [] o.aspect = "readback"   -> ChecksReadBack(o, cs)
-    [] o.aspect = "fragref"    -> ChecksFragRef(o, cs)
-    [] o.aspect = "weakref"    -> ChecksWeakRef(o, cs)
-    [] o.aspect = "canon"      -> ChecksCanon(o, cs)
-    [] o.aspect = "isrel"      -> ChecksIsRel(o, cs)
+ChecksOf(o, cs, d) ==
+  CASE o.aspect = "litparse"   -> ChecksLitParse(o, cs, d)
+    [] o.aspect = "identity"   -> ChecksIdentity(o, cs, d)
+    [] o.aspect = "litfmt"     -> ChecksLitFmt(o, cs, d)
+    [] o.aspect = "identurl"   -> ChecksIdentURL(o, cs, d)
+    [] o.aspect = "strongweak" -> ChecksStrongWeak(o, cs, d)
+    [] o.aspect = "readback"   -> ChecksReadBack(o, cs, d)
+    [] o.aspect = "fragref"    -> ChecksFragRef(o, cs, d)
+    [] o.aspect = "weakref"    -> ChecksWeakRef(o, cs, d)
+    [] o.aspect = "canon"      -> ChecksCanon(o, cs, d)
+    [] o.aspect = "isrel"      -> ChecksIsRel(o, cs, d)
+    [] o.aspect = "raw"        -> ChecksRaw(o, cs, d)
     [] OTHER -> << Chk("aspect", "malformed") >>
 
 CaseId(cs) ==
   cs.kind \o "/" \o cs.type \o "/" \o cs.ridc \o "/" \o cs.verc \o "/" \o cs.basec
 
-(* the case as the harness receives it *)
-CaseJson(cs) ==
+(* the case as C19_MC emits it: the harness reads the components, the judge  *)
+(* reads the denotation den                                                   *)
+CaseJson(cs, d) ==
   [id |-> CaseId(cs), kind |-> cs.kind, type |-> cs.type, rid |-> cs.rid, ver |-> cs.ver, base |-> cs.base,
    ridc |-> cs.ridc, verc |-> cs.verc, basec |-> cs.basec, x |-> cs.x,
-   text |-> TextOf(cs), rel |-> RelOf(cs), valid |-> ValidCase(cs),
-   refs |-> IF cs.kind = "pool" THEN PoolRefs(cs) ELSE <<>>]
+   text |-> d.text, rel |-> d.rel, valid |-> d.valid, refs |-> d.refs, den |-> d]
 =============================================================================
